@@ -370,6 +370,16 @@ class L:
             for v in info['ins']:
                 if not spec.any256:
                     hyps.append(z(value(ctx, v)) < p)
+            # interpretation of the uninterpreted product (trusted, L-nia-1): sum_ij M(a_i,b_j) W^(i+j) IS the integer
+            # product A*B, hence at most (p-1)^2 for canonical operands (resp. (2^256-1)*(p-1) for encode)
+            for a_, b_ in info['prod']:
+                if all(isinstance(x, int) for x in a_) or all(isinstance(x, int) for x in b_):
+                    continue
+                S_ = 0
+                for i in range(4):
+                    for j in range(4):
+                        S_ = ctx.add(S_, ctx.mulc(ctx.mul(a_[i], b_[j]), 1 << (64 * (i + j))))
+                hyps.append(z(S_) <= (p - 1) * (p - 1))
             res_r.functions = res_v.functions = sorted(ex.funcs_seen)
             npaths, status_r, status_v, det_v = 0, 'proved', 'proved', []
             bad_models = []
@@ -468,7 +478,9 @@ class L:
         elif spec.op in ('sop2', 'sop4'):
             T_ = int(spec.op[3])
             cs = self.candidates(spec, fc)
-            fixed_sets = [{T_ + i: cs[(j + i) % len(cs)] for i in range(T_)} for j in range(len(cs))]
+            # boundary-heavy choices first: every second operand at the top of the range (largest accumulations)
+            fixed_sets = [{T_ + i: p - 1 - i for i in range(T_)}, {T_ + i: p - 1 for i in range(T_)}, {T_ + i: (p - 1) // 2 + i for i in range(T_)}]
+            fixed_sets += [{T_ + i: cs[(j + i) % len(cs)] for i in range(T_)} for j in range(len(cs))]
         elif spec.op == 'square':
             fixed_sets = [None]
         for fs in fixed_sets:
